@@ -188,10 +188,10 @@ def wrap_ca(alg, f):
         top = _top()
         e = {"k": "P", "alg": alg, "top": top, "in": _box(), "en": _en(), "trunc": False, "bc": [],
              "q0": [bool(x) for x in a[14]]}
-        outer_shaving = alg == 1 and C.shaving == 0
+        outer_shaving = alg >= 1 and C.shaving == 0      # shaving, or a registered custom algorithm that calls BC itself
         if outer_shaving:
             e["bc"] = _plain_bc(a) or []
-            _emit({"k": "S", "d": 0, "top": top, "in": e["in"], "en": e["en"], "q0": e["q0"]})
+            _emit({"k": "S", "d": 0, "alg": alg, "top": top, "in": e["in"], "en": e["en"], "q0": e["q0"]})
             C.shaving += 1
             e["d"] = 0
         else:
@@ -226,7 +226,7 @@ def wrap_ca(alg, f):
                 rec["f"][-1][1] = _box(top) != rec["pre"] if _top() == top else True
         if outer_shaving:
             C.shaving -= 1
-        if alg == 1:
+        if alg >= 1:
             _sync()
         top2 = _top()
         C.tt = top2
@@ -377,6 +377,23 @@ def pass_bound(P):
     return 8 * m * (S + 2)
 
 
+def custom_ca(name):
+    """Register a shipped custom consistency algorithm (once) behind the recording wrapper; returns its index."""
+    if name in custom_ca.done:
+        return custom_ca.done[name]
+    if name == "golomb":
+        import nucs.examples.golomb.golomb_problem as gp
+        gp.bound_consistency_algorithm = wrap_ca(0, gp.bound_consistency_algorithm)
+        idx = ca.register_consistency_algorithm(gp.golomb_consistency_algorithm)
+        ca.CONSISTENCY_ALG_FCTS[idx] = wrap_ca(2, ca.CONSISTENCY_ALG_FCTS[idx])
+        custom_ca.done[name] = idx
+        return idx
+    raise ValueError(name)
+
+
+custom_ca.done = {}
+
+
 def make_solver(P, cfg):
     prob = problems.to_nucs(P)
     kw = {}
@@ -386,7 +403,8 @@ def make_solver(P, cfg):
         kw["dom_heuristic_params"] = cfg["dparams"]
     if cfg.get("decision") is not None:
         kw["decision_domains"] = cfg["decision"]
-    s = BacktrackSolver(prob, consistency_alg_idx=cfg.get("ca", 0), var_heuristic_idx=cfg.get("vh", 0),
+    ca_idx = custom_ca(cfg["custom_ca"]) if cfg.get("custom_ca") else cfg.get("ca", 0)
+    s = BacktrackSolver(prob, consistency_alg_idx=ca_idx, var_heuristic_idx=cfg.get("vh", 0),
                         dom_heuristic_idx=cfg.get("dh", 0), stack_max_height=cfg.get("height", 64),
                         log_level="ERROR", **kw)
     return prob, s
@@ -470,11 +488,14 @@ def run_item(item, interp_timeout=20.0):
     Pd = problems.from_nucs(prob, NAMES)
     Pd["trig"] = prob.triggers.tolist()
     nd = len(Pd["doms"])
-    cfgx = {"ca": item["cfg"].get("ca", 0), "vh": item["cfg"].get("vh", 0), "dh": item["cfg"].get("dh", 0),
+    cfgx = {"ca": 2 if item["cfg"].get("custom_ca") else item["cfg"].get("ca", 0), "vh": item["cfg"].get("vh", 0), "dh": item["cfg"].get("dh", 0),
             "height": item["cfg"].get("height", 64), "decision": item["cfg"].get("decision") or list(range(nd)),
             "vparams": item["cfg"].get("vparams") or [], "dparams": item["cfg"].get("dparams") or [],
             "mode": item.get("mode", "solve"), "var": item.get("var", 0), "ent": 1, "sched": 0}
-    out = {"id": item["id"], "P": Pd, "cfgx": cfgx, "cfg": {k: item["cfg"].get(k) for k in ("ca", "vh", "dh", "height")},
+    cfg_out = {k: item["cfg"].get(k) for k in ("ca", "vh", "dh", "height")}
+    if item["cfg"].get("custom_ca"):
+        cfg_out["ca"] = 2
+    out = {"id": item["id"], "P": Pd, "cfgx": cfgx, "cfg": cfg_out,
            "mode": item.get("mode", "solve"), "var": item.get("var", -1), "limit": item.get("limit", -1),
            "cut": bool(C.cut), "slow": slow, "ev": C.ev}
     return out
